@@ -27,7 +27,8 @@ class Bindings(object):
     """declarative description of what is registered on a parser, so that a fresh equal parser can be built"""
 
     def __init__(self):
-        self.variables = {'xa': 4, 'yb': -6, 'zed': 0.5, 'width': 12, 'rate_pct': 2.5, 'n_items': 9, 'neg_half': -0.5, 'foo': 5, 'lst': [1, 2, [3, 4]], 'txt': 'a,b'}
+        self.variables = {'xa': 4, 'yb': -6, 'zed': 0.5, 'width': 12, 'rate_pct': 2.5, 'n_items': 9, 'neg_half': -0.5, 'foo': 5, 'lst': [1, 2, [3, 4]], 'txt': 'a,b',
+                          'tup': (1, 2, 3), 'tup_one': (7,), 'tup_rows': ((1, 2), (3, 4)), 'empty_tup': ()}
         self.functions = {'CF': ('len',), 'BOOM': ('raise', 'ValueError'), 'SYN': ('raise', 'SyntaxError'), 'ERRR': ('raise-xl',), 'INNER': ('nested', '10*2'), 'TWICE': ('twice',)}
         self.listeners = [('callCellValue', 'cells'), ('callRangeValue', 'range')]
         self.state = {'cell_offset': 0, 'range_value': [[1, 2], [3, 4]]}       # host data the listeners read; histories change it
@@ -84,6 +85,8 @@ def make_listener(kind, state=None):
         return l
     if kind == 'range':
         return lambda a, b, s: s(state['range_value'])
+    if kind == 'range-tuple':
+        return lambda a, b, s: s(tuple(tuple(r) if isinstance(r, list) else r for r in state['range_value']))
     if kind == 'cells-raise':
         def l(cell, setter):
             if cell.col.index > 3:
@@ -160,7 +163,7 @@ class Check(BaseCheck):
         g10 = C10.Gen(rnd)
         fixed = ['1+2*3', 'SUM(1,2,{3,4})', '"a"&"b"', 'IF(xa>2,"big","small")', 'A1+B2', 'MAX(A1:B2)', '1/0', 'nosuch', 'NOSUCH(1)', '1+', 'ROMAN(1999)', 'DATE(2020,1,1)+5',
                  'COUNTIF({"ab","cd"},"ab")', '-xa', 'BOOM(1)', 'SYN(1)+1', 'INNER(2)*3', '{1,2;3,4}', '#REF!', '"abc', '2^3+50%', 'foo', 'foo*2', 'CF(lst)', 'SUM(lst)', 'TWICE(foo)',
-                 'ERRR(1)', 'IFERROR(ERRR(1),7)', 'TEXTJOIN(",",TRUE,txt,"c")', 'INDEX(lst,2)', 'LARGE({3,1,2},1)', 'MATCH(2,{1,2,3},0)', 'EDATE(DATE(2020,1,31),1)', 'Z9',
+                 'ERRR(1)', 'IFERROR(ERRR(1),7)', 'SUM(tup)', 'tup', 'CF(tup)', 'SUM(tup_rows)', 'MAX(tup_one)', 'COUNT(empty_tup)', 'INDEX(tup,2)', 'xa+SUM(tup)', 'TEXTJOIN(",",TRUE,txt,"c")', 'INDEX(lst,2)', 'LARGE({3,1,2},1)', 'MATCH(2,{1,2,3},0)', 'EDATE(DATE(2020,1,31),1)', 'Z9',
                  # probes that fail through every kind of python exception inside the evaluation
                  'COT(0)', 'LOG(8,1)', 'ACOTH(1)', 'POWER(0,-1)', 'SQRT(-1)', 'CHOOSE(1.5,1,2)', '-"a"', 'LEFT("abc","x")', 'FACT("z")', 'DATE(2020,13,45)', 'CHAR(-1)', 'CODE("")',
                  'EXP(100000)', 'MID(1,2,3)', 'AVERAGE()', 'MODE(1,2)', 'INDEX(5,1,1,1,1,1)', 'SYN(1)', 'BOOM(1)+1', 'ERRR(1)&"x"', u'§', '1 2', '{1,2', 'A1:']
@@ -204,7 +207,7 @@ class Check(BaseCheck):
                         rec.count('fault_adjacent_probes')
                 elif k < 0.75:
                     name = rnd.choice(['xa', 'foo', 'newvar', 'lst', 'zed', 'txt'])
-                    v = rnd.choice([1, 2.5, 'z', [9, 8], None, True, 100])
+                    v = rnd.choice([1, 2.5, 'z', [9, 8], None, True, 100, (4, 5), (1,), ((1, 2), (3, 4)), {'k': 1}, 3 + 4j, b'by', frozenset([1])])
                     b.variables[name] = v
                     aged.set_variable(name, v)
                     hist.append(('set_variable', name, v))
@@ -225,7 +228,7 @@ class Check(BaseCheck):
                     hist.append(('host-data-change', dict(b.state)))
                     rec.count('history_ops.host_data_change')
                 elif k < 0.94:
-                    ev, kind = rnd.choice([('callCellValue', 'cells-raise'), ('callVariable', 'var-override'), ('callFunction', 'noop'), ('callCellValue', 'noop'), ('callRangeValue', 'noop')])
+                    ev, kind = rnd.choice([('callCellValue', 'cells-raise'), ('callVariable', 'var-override'), ('callRangeValue', 'range-tuple'), ('callFunction', 'noop'), ('callCellValue', 'noop'), ('callRangeValue', 'noop')])
                     b.listeners.append((ev, kind))
                     aged.on(ev, make_listener(kind, b.state))
                     hist.append(('on', ev, kind))
